@@ -26,7 +26,11 @@ EXPLANATION = (
     "_create_payload returns the stored element; the Tensor wrappers return "
     "the rank-0 box itself and otherwise delegate with *args/**kwargs "
     "unchanged; every in-place operator method returns self on every normal "
-    "path; defaults handed out by _createDefault are fresh.  Last-write-wins "
+    "path; defaults handed out by _createDefault are fresh; (R5) whether "
+    "getPayload / getPayloadRef treat a coordinate as present is decided "
+    "from the coordinate lists alone (never from the stored payload's "
+    "value, so a stored default or empty sub-fiber is still the element "
+    "that was written).  Last-write-wins "
     "over histories, prefix reads and start_pos equivalence are not decided.")
 RULE = ("one obligation per read accessor (effect query), per return path of "
         "the reference accessors, per tensor wrapper and per in-place "
@@ -45,6 +49,7 @@ def run(ctx):
     ctx.guard(r2, eff)
     ctx.guard(r3)
     ctx.guard(r4, eff)
+    ctx.guard(r5)
     ctx.assume("saved-position statistics (Fiber._saved_*) are an accelerator; "
                "writes to them are not tree effects")
 
@@ -243,3 +248,64 @@ def r4(ctx, eff):
     else:
         ctx.ok("C03.R4", f, f.node, "default is fresh per call",
                text_="def _createDefault")
+
+
+# -- R5: presence is decided by the coordinates, not by the stored value ------
+
+def _mentions_payload(e):
+    for n in ast.walk(e):
+        if isinstance(n, ast.Attribute) and n.attr in ("payloads", "isEmpty", "value"):
+            return n
+        if isinstance(n, ast.Call) and isinstance(n.func, ast.Attribute) and \
+                n.func.attr in ("getPayloads", "isEmpty"):
+            return n
+    return None
+
+
+def r5(ctx):
+    for mname in ("getPayload", "getPayloadRef"):
+        f = ctx.method("Fiber", mname)
+        found = []
+        for n in f.own_nodes():
+            if isinstance(n, ast.If):
+                for st in n.body:
+                    if isinstance(st, ast.Assign) and isinstance(st.value, ast.Subscript) \
+                            and text(st.value.value) == "self.payloads":
+                        found.append(n)
+        ctx.require(len(found) == 1, "C03.R5: the present/absent branch of Fiber.%s "
+                    "(`if <present>: payload = self.payloads[index]`) was not "
+                    "found" % mname)
+        iff = found[0]
+        offender = None
+        seen = set()
+        todo = [(iff.test, iff)]
+        while todo and offender is None:
+            e, at = todo.pop()
+            m = _mentions_payload(e)
+            if m is not None:
+                offender = (m, at)
+                break
+            for nm in [x for x in ast.walk(e) if isinstance(x, ast.Name)]:
+                if not isinstance(nm.ctx, ast.Load):
+                    continue
+                facts, is_param = ctx.ty.facts_at(f, nm.id, nm if hasattr(nm, "_parent") else at)
+                for fa in facts:
+                    if id(fa.stmt) in seen or fa.stmt is None:
+                        continue
+                    seen.add(id(fa.stmt))
+                    if fa.value is not None:
+                        todo.append((fa.value, fa.stmt))
+                    # control dependence of the definition
+                    for t, pol in guards(fa.stmt, asserts=False):
+                        todo.append((t, fa.stmt))
+        if offender is None:
+            ctx.ok("C03.R5", f, iff, "presence of the coordinate is decided from "
+                   "the coordinate search alone", text_="%s presence" % mname)
+        else:
+            m, at = offender
+            ctx.bad("C03.R5", f, at, "Fiber.%s decides whether the coordinate is "
+                    "present from the stored payload (`%s`): an element holding "
+                    "the default value / an empty sub-fiber reads as if it had "
+                    "never been written (allocate=False returns the caller's "
+                    "default or None instead of the stored object)"
+                    % (mname, text(m)), text_="%s presence" % mname)
